@@ -435,6 +435,15 @@ pub fn run(tier: Tier) -> RunOutcome {
     api(format!("settings {}", describe_settings(&settings)));
     api(format!("ops {:?}", ops));
 
+    // ---- child-process mode: the same history with the real stdout as target
+    if std::env::var("SIM_C20_STDOUT_CHILD").is_ok() {
+        with_sim(|s| s.clocks[0] = Clock::new(profile.clone()));
+        let _ = exec_history_to(0, &prob, &settings, &ops, true, &Target::Stdout);
+        use std::io::Write;
+        std::io::stdout().flush().ok();
+        std::process::exit(0);
+    }
+
     // ---- R4: fault-free buffer
     with_sim(|s| s.clocks[0] = Clock::new(profile.clone()));
     let mut r4 = exec_history_to(0, &prob, &settings, &ops, true, &Target::Buffer);
@@ -449,6 +458,38 @@ pub fn run(tier: Tier) -> RunOutcome {
         .map(|s| s.get_print_buffer().unwrap_or_default())
         .unwrap_or_default();
     let snaps4: Vec<Snap> = r4.snaps.iter().map(|s| s.clone().unwrap()).collect();
+
+    // ---- stdout, observed through a child process whose fd 1 is a pipe
+    if chance("stdout_child", 1, 48) {
+        let choices = with_sim(|s| s.cs.record.clone());
+        let list: Vec<serde_json::Value> = choices
+            .iter()
+            .map(|c| serde_json::json!([c.tag, c.n, c.v]))
+            .collect();
+        let path = work_file("stdout_child.json");
+        std::fs::write(&path, serde_json::to_vec(&list).unwrap()).expect("write choices");
+        let outp = std::process::Command::new(std::env::current_exe().expect("exe"))
+            .arg("c20-stdout")
+            .arg(&path)
+            .arg(if tier == Tier::Quick { "quick" } else { "thorough" })
+            .env("SIM_C20_STDOUT_CHILD", "1")
+            .stderr(std::process::Stdio::null())
+            .output();
+        std::fs::remove_file(&path).ok();
+        probe("c20_stdout_child_runs");
+        match outp {
+            Ok(o) if o.status.success() => {
+                if o.stdout != buf.as_bytes() {
+                    out.violations.push(Violation::new(
+                        if verbose { "C20.stdout_differs_from_buffer" } else { "C20.quiet_stdout_written" },
+                        format!("stdout received {} bytes, buffer holds {}", o.stdout.len(), buf.len()),
+                    ));
+                }
+            }
+            Ok(o) => note(format!("stdout child failed: {:?}", o.status)),
+            Err(e) => note(format!("stdout child could not be spawned: {}", e)),
+        }
+    }
 
     // ---- stream under benign faults
     let plan = SinkPlan {
